@@ -325,6 +325,11 @@ def param_list(ctx):
             for cs in pairs:
                 for dh in (('record', 'yield') if ctx.quick else ('record', 'yield', 'raise')):
                     ps.append({'impl': impl, 'transport': tr, 'causes': list(cs), 'dh': dh})
+            if tr == 'websocket':
+                # a CLOSE (or a bad packet) that still arrives by POST after the session has been upgraded
+                for c in ('post_close', 'post_bad'):
+                    for dh in ('record', 'yield'):
+                        ps.append({'impl': impl, 'transport': tr, 'causes': [c], 'dh': dh})
             if tr == 'polling':
                 for c in ('post_close', 'api_disc', 'post_bad', 'post_oversize'):
                     for dh in ('record', 'yield'):
